@@ -206,4 +206,83 @@ func fbb.StringToBody(str, encoding) (body, err)
 func fbb.min(a, b) (r)
   props C18
   ensures def: r == min(a, b)
+
+func fbb.(*Message).Validate(m) (err)
+  props C09
+  trusted
+  pure
+
+# the proposal for a message (compression is C06's subject)
+func fbb.(*Message).Proposal(m, code) (p, err)
+  props C09
+  trusted
+  modifies foreign
+  ensures nonnil: p != nil
+
+func fbb.(*WordDecoder).DecodeHeader(d, header) (s, err)
+  props C09
+  trusted
+  pure
+
+# ---------------------------------------------------------------------------
+# B2F session
+# ---------------------------------------------------------------------------
+pred SessOK(s) := s.rd != nil && s.log != nil && s.pLog != nil && s.pendingMessages != nil
+
+func fbb.(*Session).nextLineRemoteErr(s, parseErr) (line, err)
+  props C03
+  requires sess: SessOK(s)
+
+func fbb.parseSID(str) (r, err)
+  props C03
+
+func fbb.(*Session).readHandshake(s) (data, err)
+  props C03 C16
+  requires sess: SessOK(s)
+
+func fbb.(*Session).handshake(s, rw) (err)
+  props C03
+  requires sess: SessOK(s) && rw != nil && len(s.localFW) >= 1
+
+func fbb.(*Proposal).data(p) (data, err)
+  props C03 C04
+
+func fbb.(*Proposal).Message(p) (m, err)
+  props C03 C04
+  ensures result: err == nil ==> m != nil
+
+func fbb.(*Message).ReadFrom(m, r) (err)
+  props C03 C09
+  requires reader: r != nil
+
+func fbb.(*Session).readCompressed(s, rw, p) (err)
+  props C03 C04 C17
+  requires sess: SessOK(s) && rw != nil && p != nil
+
+func fbb.(*Session).writeCompressed(s, rw, p) (err)
+  props C03 C17
+  requires sess: SessOK(s) && rw != nil && p != nil
+
+func fbb.(*Session).writeProposalsAnswer(s, rw, proposals) (nAccepted, err)
+  props C03
+  requires sess: SessOK(s) && rw != nil
+  requires props: forall k :: 0 <= k && k < len(proposals) ==> proposals[k] != nil
+
+func fbb.(*Session).handleInbound(s, rw) (quitReceived, err)
+  props C03
+  requires sess: SessOK(s) && rw != nil
+
+func fbb.(*Session).sendOutbound(s, rw, outbound) (sent, err)
+  props C03
+  requires sess: SessOK(s) && rw != nil && s.h != nil
+  requires props: forall k :: 0 <= k && k < len(outbound) ==> outbound[k] != nil
+
+func fbb.(*Session).handleOutbound(s, rw) (quitSent, err)
+  props C03
+  requires sess: SessOK(s) && rw != nil
+
+func fbb.(*Session).outbound(s) (props)
+  props C03
+  requires sess: SessOK(s)
+  ensures elems: forall k :: 0 <= k && k < len(props) ==> props[k] != nil
 @*/
